@@ -230,8 +230,8 @@ def pc_job(cfg):
                 stats["states"] += 1
                 if w.within():
                     nxt.append((key, pickle.dumps(w)))
-        if not stats["samples"] and nxt:
-            stats["samples"].append({"cfg": cfg, "trace": trace_of(nxt[len(nxt) // 2][0])})
+        if nxt:
+            stats["samples"] = [{"cfg": cfg, "trace": trace_of(nxt[len(nxt) // 2][0])}]
         frontier = nxt
     stats["outcomes"] = len(stats["outcomes"])
     stats["wall"] = time.time() - t0
